@@ -653,8 +653,12 @@ class Function(NameAliasMixin, TokenList):
                 return token.get_identifiers()
             elif imt(token, i=(Function, Identifier, TypedLiteral, Operation,
                                Comparison, Case, Parenthesis),
-                     t=T.Literal):
+                     t=[T.Literal, T.Name, T.Wildcard]):
                 result.append(token)
+        if not result:
+            # a keyword that stands for a value: f(null), f(current_date)
+            result = [token for token in parenthesis.tokens
+                      if token.ttype in T.Keyword]
         return result
 
     def get_window(self):
